@@ -27,7 +27,8 @@ C08_NoPriority(sd) == \A p \in C08_SPaths(sd) : C08_SAt(sd, p).pr = PrNone
 
 C08_Vocabulary(sd) ==
     \A p \in C08_SPaths(sd) : LET n == C08_SAt(sd, p)
-                              IN n.k \in {"dict", "list", "scalar"} /\ n.del = "N" /\ n.safe = "N"
+                              IN n.k \in {"dict", "list", "scalar"} /\ n.safe = "N"
+                                 /\ (n.del = "T" => n.k # "scalar")          \* no remove-this-key idiom
 
 \* one merge step: old (observed tree or "none" for the first document), newer document, outcome
 C08_StepHolds(first, old, sd, out) ==
@@ -98,6 +99,19 @@ C08_Ov(d) ==
      ELSE TagAll((MapsOverMax(<<C08_KA, C08_KB>>, C08_Ov(d - 1), IF d = 1 THEN 2 ELSE 1) \ {SD("dict", NoVal, <<>>)})
                  \cup ListsOver(IF d = 1 THEN 3 ELSE 1, {C08_L("2")}), {"none", "notnew", "new"}))
 C08_OvDocs == TagAll({SD("dict", NoVal, <<<<C08_KA, c>>>>) : c \in C08_Ov(2)}, {"none", "notnew"})
+
+\* !merge / !del tags below !notnew (the flags are independent: an explicit delete
+\* flag on a node must not stop the inherited !notnew from reaching its children)
+RECURSIVE C08_OvD(_)
+C08_OvD(d) ==
+    {C08_L("2")} \cup
+    (IF d = 0 THEN {}
+     ELSE TagAll((MapsOverMax(<<C08_KA, C08_KB>>, C08_OvD(d - 1), IF d = 1 THEN 2 ELSE 1) \ {SD("dict", NoVal, <<>>)})
+                 \cup ListsOver(IF d = 1 THEN 3 ELSE 1, {C08_L("2")}), {"none", "merge", "del"}))
+C08_OvDelDocs == TagAll({SD("dict", NoVal, <<<<C08_KA, c>>>>) : c \in C08_OvD(2)}, {"notnew"})
+C08_DocsD  == SetToSeq(C08_BaseDocs) \o SetToSeq(C08_OvDelDocs)
+C08_RangeD == << <<1, Cardinality(C08_BaseDocs)>>,
+                 <<Cardinality(C08_BaseDocs) + 1, Cardinality(C08_BaseDocs) + Cardinality(C08_OvDelDocs)>> >>
 
 \* command-line overrides: every path through mappings and indices (existing, mistyped, out of range)
 C08_PathSteps == {C08_KA, C08_KB, IKey(0), IKey(1), IKey(2)}
